@@ -1169,6 +1169,9 @@ def load(odffile):
             doc.thumbnail_mediatype = mvalue['media-type']
         elif mentry in (u'settings.xml', u'meta.xml', u'content.xml', u'styles.xml'):
             pass
+        elif mentry in (u"mimetype", u"META-INF/manifest.xml"):
+            # listed by some producers; both are written anew on save
+            pass
         elif mentry in (u"/", u"Thumbnails/"):
             pass # these entries are written by save() itself
         # Load subobjects into structure
